@@ -1,0 +1,36 @@
+//go:build verif
+
+// Package verifx re-exports internal/common for the external verification harness (an internal
+// package cannot be imported from another module). It is compiled only with the build tag verif.
+package verifx
+
+import (
+	"io"
+
+	"github.com/privacybydesign/gabi/big"
+	"github.com/privacybydesign/gabi/internal/common"
+)
+
+type (
+	FastMod = common.FastMod
+	CPRNG   = common.CPRNG
+)
+
+var (
+	NewCPRNG           = common.NewCPRNG
+	FastRandomBigInt   = common.FastRandomBigInt
+	RandomQR           = common.RandomQR
+	HashCommit         = common.HashCommit
+	GetHashNumber      = common.GetHashNumber
+	IntHashSha256      = common.IntHashSha256
+	ModInverse         = common.ModInverse
+	ModPow             = common.ModPow
+	RepresentToBases   = common.RepresentToBases
+	RandomBigInt       = common.RandomBigInt
+	LegendreSymbol     = common.LegendreSymbol
+	Crt                = common.Crt
+	SumFourSquares     = common.SumFourSquares
+	PrimeSqrt          = common.PrimeSqrt
+	ModSqrt            = common.ModSqrt
+	RandomPrimeInRange = func(rand io.Reader, start, length uint) (*big.Int, error) { return common.RandomPrimeInRange(rand, start, length) }
+)
